@@ -35,7 +35,7 @@ HEIGHTS = [-1.0, 0.0, 0.5, 2.0, 2000.0]
 # pearson / kullback_leibler are NOT symmetric: d(x_i, x_j) - the distance FROM sample i - is what counts
 METRICS = {"quick": ["euclidean", "log_squared_euclidean", "pearson"],
            "thorough": ["euclidean", "log_squared_euclidean", "manhattan", "canberra", "chebyshev",
-                        "pearson", "kullback_leibler", "neyman"]}
+                        "pearson", "neyman"]}   # (kullback_leibler is negative off the simplex: outside the domain)
 TINY = {"tiny": [0.0, 1e-6, 5e-6], "straddle": [0.0, 9e-6, 1.1e-5]}
 
 
